@@ -24,14 +24,15 @@ FIXED_FORMS = [
     "((lambda (x) (when x 1)) 1)", "(let (x 1) (try x))", "((lambda (x) (and x (or x 2))) 5)", "(let (x 1) (and x (or x 2)))",
     "'(when a b)", "(quote (let (x 1) x))", "(list 'when 1 2)", "(when 1 (when 2 (when 3 4)))", "((lambda (f) (f 1)) (lambda (x) (when x (not x))))",
     "(block (when 1 2) (and 3 4))", "(case ((when nil 1) 'a) ((not nil) 'b))", "((macro (x) (list 'quote x)) (when a b))",
-    "((macro (x) x) (when 1 2))", "(map (lambda (x) (when x (add x 1))) '(1 2))", "(try (when 1 (car 5)) (catch-all (lambda (e) 'caught)))",
+    "((macro (x) x) (when 1 2))", "((macro (x) (list 'when x 1)) t)", "((lambda (y) ((macro (x) (list 'and x 7)) y)) 3)", "((macro (x) (list (list 'macro '(y) '(list 'not y)) x)) 5)",
+    "((macro (x) (list 'when x (list 'when x 2))) 1)", "(map (lambda (x) (when x (add x 1))) '(1 2))", "(try (when 1 (car 5)) (catch-all (lambda (e) 'caught)))",
     "(((lambda (y) (lambda (x) (when x y))) 7) 1)", "(apply + (list 1 (when 1 2)))", "(let (x '(when 1 2)) x)", "(throw 'kind (when 1 'k))",
 ]
 
 def wrap_monitors(form):
     """on the implementation: value of the form, value of its expansion, expansion twice vs once"""
     q = "'" + form if not form.startswith("'") else "(quote " + form + ")"
-    return (f"((lambda (x) (list (= (print (macroexpand (macroexpand x))) (print (macroexpand x)))"
+    return (f"((lambda (x) (list ((lambda (y) (= (macroexpand y) y)) (macroexpand x))"
             f" (print (eval (trap (eval x) (list 'sig *trapped-signal*))))"
             f" (print (eval (trap (eval (macroexpand x)) (list 'sig *trapped-signal*)))))) {q})")
 
@@ -72,7 +73,7 @@ def run(tier, seed):
         v1, v2 = dump.text_of(items[1]), dump.text_of(items[2])
         import re
         canon = lambda t: re.sub(r"0x[0-9a-f]+", "0x0", t or "")
-        if not idem and "gensym" not in p and "block" not in p:
+        if not idem:
             rep.violation("expanding an expanded form changes it: " + p, {"program": wrap_monitors(p), "observed": a[:400]})
         if canon(v1) != canon(v2) and "#<symbol" not in canon(v1):
             rep.violation("eval x differs from eval (macroexpand x): " + p, {"program": wrap_monitors(p), "eval": v1, "eval_of_expansion": v2})
